@@ -96,7 +96,7 @@ class Optimizer(Identifiable, Runnable):
                     checkpoint_file = self.checkpoint.replace(
                         ".json", f"-{self._epoch}.json"
                     )
-                    self.save_full_state(checkpoint_file, overwrite=True)
+                    self.save_full_state(checkpoint_file)
                 else:
                     self.save_full_state(self.checkpoint)
 
@@ -176,7 +176,7 @@ class Optimizer(Identifiable, Runnable):
                     checkpoint_file = self.checkpoint.replace(
                         ".json", f"-{self._epoch}.json"
                     )
-                    self.save_full_state(checkpoint_file, overwrite=True)
+                    self.save_full_state(checkpoint_file)
                 else:
                     self.save_full_state(self.checkpoint)
 
